@@ -194,7 +194,7 @@ func (r RawSuite) Validate() error {
 
 func parseRawSuite(raw string) (SuiteConfig, error) {
 	parts := strings.Split(raw, ":")
-	if len(parts) < 3 {
+	if len(parts) != 3 {
 		return SuiteConfig{}, fmt.Errorf("invalid OCRA suite format: %q", raw)
 	}
 
@@ -203,7 +203,7 @@ func parseRawSuite(raw string) (SuiteConfig, error) {
 	dataInput := parts[2]
 
 	// minimal checks
-	if !strings.HasPrefix(parts[0], "OCRA-1") {
+	if parts[0] != "OCRA-1" {
 		return SuiteConfig{}, fmt.Errorf("unsupported OCRA version: %q", parts[0])
 	}
 
